@@ -2,6 +2,7 @@
    The body is extracted from /repo on every run; the ostringstream tail is replaced by the stub gv_print_dms. */
 
 //@ prelude
+double gv_dec_d, gv_dec_m, gv_dec_s;   /* ghost: fields decoded by dms2rad */
 int gv_exc;
 struct gv_dms {       /* what the formatting tail is given / what the string shows */
   int    d, m;
@@ -97,6 +98,8 @@ GV_CANARY("rad2dms entry");
 GV_CANARY("dms2rad entry");
 //@ end
 
+//@ at dms2rad fields
+gv_dec_d = d; gv_dec_m = m; gv_dec_s = dms;   /* ghost: the three fields as decoded, just before they are combined */
 //@ harness
 void h_rad2dms(void)
 {
@@ -107,6 +110,23 @@ void h_rad2dms(void)
   GV_CANARY("h_rad2dms end");
 }
 
+/* d.mmss is a DECIMAL notation for degrees, minutes, seconds: the literal D.MMSS means D degrees MM minutes SS seconds.
+   For every such literal with integer fields the fields that dms2rad decodes are the written ones (C18: "valid field
+   ranges", "convert into each other and back").  On the tree as found 0.29 (stored as 0.28999999999999998) was read as
+   28 minutes 100 seconds: 1445 of 187200 literals were 40" off (demos/C18_dms2rad_fields.cpp). */
+void h_dms2rad_fields(void)
+{
+  int D, M, S, neg;
+  __CPROVER_assume(0 <= D && D <= 359 && 0 <= M && M <= 59 && 0 <= S && S <= 59 && (neg == 0 || neg == 1));
+  double lit = D + M / 100.0 + S / 10000.0;
+  int w_D = D, w_M = M, w_S = S;
+  double r = dms2rad(neg ? -lit : lit);
+  __CPROVER_assert(gv_dec_d == D, "dms2rad: the degrees decoded are the degrees written");
+  __CPROVER_assert(gv_dec_m == M, "dms2rad: the minutes decoded are the minutes written (0..59)");
+  __CPROVER_assert(gv_dec_s >= 0 && gv_dec_s < 60 && gv_dec_s - S < 1e-6 && S - gv_dec_s < 1e-6,
+                   "dms2rad: the seconds decoded are the seconds written, inside [0, 60)");
+  GV_CANARY("h_dms2rad_fields end");
+}
 void h_dms2rad(void)
 {
   double dms;
